@@ -41,6 +41,9 @@ Templates ==
       Items |-> ClassP(<<"p">>, <<Field("items", Star(Ref("p"))), Field("tail", Opt(A1))>>),
       Invoke |-> RuleP(<<"F", "x">>, Call("F", <<Pos(Ref("x"))>>)),        \* calls its own parameter with arguments
       Close |-> RuleP(<<"q">>, Where(Plus(B1), Lam("eq", "q"))),          \* a run equal to the (list) argument
+      \* one-parameter classes with a VALUE parameter: also reachable from Python as C.parse(value)(text)
+      ValK  |-> ClassP(<<"v">>, <<Field("tag", A1), Field("val", PyVar("v"))>>),
+      RepK  |-> ClassP(<<"n">>, <<Field("xs", Rep(A1, Nm("n"), Nm("n")))>>),
       Word  |-> Rule(W) ]
 
 P(e) == Pos(e)
@@ -118,11 +121,26 @@ vars == <<site, named, done>>
 
 Init == site \in 1..Len(Sites) /\ named \in {FALSE, TRUE} /\ done = FALSE
 
+(* the curried Python entry point of a one-parameter class: the value is bound as it is, whatever its type or length *)
+CurryVals == << <<"i", 3>>, <<"i", 0>>, <<"s", <<a, b>>>>, <<"s", <<a>>>>, <<"s", <<>>>>, <<"l", << <<"i", 1>> >>>>, <<"l", <<>>>>,
+                <<"l", << <<"s", <<a>>>>, <<"s", <<b>>>> >>>>, <<"l", << <<"l", << <<"i", 2>> >>>> >>>>, None >>
+CurryInts == << <<"i", 0>>, <<"i", 1>>, <<"i", 3>> >>
+CurryTexts == << <<a>>, <<a, a, a>>, <<>>, <<b>>, <<a, a, a, a>> >>
+CurryRuns(G) ==
+    [k \in 1..(Len(CurryVals) * Len(CurryTexts)) |->
+        RunArgs(G, "ValK", <<CurryVals[((k - 1) \div Len(CurryTexts)) + 1]>>, CurryTexts[((k - 1) % Len(CurryTexts)) + 1], 0)]
+    \o [k \in 1..(Len(CurryInts) * Len(CurryTexts)) |->
+        RunArgs(G, "RepK", <<CurryInts[((k - 1) \div Len(CurryTexts)) + 1]>>, CurryTexts[((k - 1) % Len(CurryTexts)) + 1], 0)]
+
 Step == /\ ~done
         /\ done' = TRUE
         /\ UNCHANGED <<site, named>>
-        /\ EmitCase(Grammar(site), IF named THEN [prop |-> "C06", name |-> "vg_c06"] ELSE [prop |-> "C06"],
-                    <<"start">>, Texts)
+        /\ LET G == Grammar(site)
+               cfg == IF named THEN [prop |-> "C06", name |-> "vg_c06"] ELSE [prop |-> "C06"] IN
+           IF site = 1
+           THEN PrintT(ToJson([g |-> G, cfg |-> cfg,
+                               runs |-> [k \in 1..Len(Texts) |-> Run(G, "start", Texts[k], 0)] \o CurryRuns(G)]))
+           ELSE EmitCase(G, cfg, <<"start">>, Texts)
 
 Next == Step
 
